@@ -258,3 +258,55 @@ class is_monophonic:
         chords = len([n for n in rest if n.token.category in closure([TokenCategory.CHORD])])
         notes = len([n for n in rest if n.token.category in closure([TokenCategory.NOTE_REST])])
         return iff(result, conj(kerns == 1, chords == 0, notes > 0))
+
+
+# ------------------------------------------------------------------------------------------------ get_metacomments
+from kernpy.core.tokens import MetacommentToken, SimpleToken, FieldCommentToken
+
+
+@contract(DOC + 'MetacommentsTraversal.__init__', props=['C17'], name='metacomments_traversal_init_summary', local=True,
+          assumed='abstraction of MetacommentsTraversal.__init__: an empty collection')
+class metacomments_traversal_init_summary:
+    def model(self):
+        self.metacomments = fresh_list()
+        return None
+
+
+def mk_mixed_document(g):
+    """a document known through its preorder: the root, then any number of nodes whose token is a global comment, a field comment or
+    another token (which: unknown per node)"""
+    def node(e):
+        tok = e.new_any('token', [MetacommentToken, FieldCommentToken, SimpleToken],
+                        {'encoding': e.str_sym('encoding'), 'category': e.enum('category', TokenCategory), 'hidden': False})
+        return e.new(Node, {'id': e.int('id', 1), 'token': tok}, None)
+    rest = g.seq('preorder', node)
+    root = g.new(Node, {'id': 0, 'token': None, 'children': []}, None)
+    tree = g.new(MultistageTree, {'root': root, 'stages': []}, None)
+    doc = g.new(Document, {'tree': tree, 'measure_start_tree_stages': [], 'page_bounding_boxes': {}, 'header_stage': None}, None)
+    ghost_set('preorder', [root] + rest)
+    return doc, rest
+
+
+@contract(DOC + 'Document.get_metacomments', props=['C17'])
+class get_metacomments:
+    """C17: the comment listing is the preorder of the tree restricted to the global-comment tokens (and, with a key, to those that
+    start with '!!!' + key), as texts, in order; with clear=True the '!!!key: ' prefix text is removed from each"""
+    uses = ('dfs_summary', 'metacomments_traversal_init_summary')
+    assumes = (A_PRE,)
+
+    def inputs(g):
+        doc, rest = mk_mixed_document(g) if g.symbolic else native_listed_document(g)
+        key = g.choice('key', [None, 'COM', 'OTL'])
+        return {'self': doc, 'KeyComment': key, 'clear': g.bool('clear'), '_rest': rest}
+
+    modifies = ()
+
+    def post_listing_is_filtered_preorder(result, KeyComment, clear, rest):
+        if KeyComment is None:
+            # (clear without a key replaces the text '!!!None: ', which no comment of the corpus contains: the texts are unchanged)
+            if clear:
+                return True
+            return result == [n.token.encoding for n in rest if isinstance(n.token, MetacommentToken)]
+        want = [(n.token.encoding.replace('!!!' + KeyComment + ': ', '') if clear else n.token.encoding) for n in rest
+                if isinstance(n.token, MetacommentToken) and n.token.encoding.startswith('!!!' + KeyComment)]
+        return result == want
